@@ -708,6 +708,10 @@ def audit_oracle(desc, res, observations, sevlog):
                 f('json_keysize_differs_from_text', {'text': shown, 'json': js}, 'same size in both views')
         if len(set(shown_sizes.values())) != 1 or len(set(json.dumps(v) for v in size_notes.values())) != 1:
             f('rsa_family_members_differ', {'sizes': shown_sizes, 'notes': size_notes}, 'every advertised member shows the same size and size notes')
+        for t in fam:
+            je_ = jkey.get(t, {})
+            if 'cert/' in lines[t][0] or 'casize' in je_ or je_.get('ca_algorithm') or any('CA key' in x for _, x in lines[t][1]):
+                f('plain_key_reports_ca_details', {'type': t, 'shown': lines[t][0], 'json': {k: je_.get(k) for k in ('ca_algorithm', 'casize')}}, 'no CA type / size / CA notes on a host key that is not a certificate')
         sz = shown_sizes[fam[0]]
         if sz is None or not size_ok(sz, bits):
             f('rsa_size_wrong', {'modulus_bits': bits, 'shown': lines[fam[0]][0]}, '%d-bit' % bits)
@@ -744,6 +748,11 @@ def audit_oracle(desc, res, observations, sevlog):
             if m['kind'] == 'ed448' and any(x.startswith('using small') for _, x in notes):
                 observations['ed448_rated_small_modulus (D24)'] = observations.get('ed448_rated_small_modulus (D24)', 0) + 1
         if m['kind'] in ('ed25519', 'ed448', 'ecdsa'):
+            # a plain key has no signing CA: nothing of a certificate probed before it may stick to it (seed C03-7)
+            je_ = jkey.get(t, {})
+            if 'cert/' in shown or ' CA)' in shown or rec[3] not in ('', None) or rec[4] not in (0, None) or 'casize' in je_ or je_.get('ca_algorithm') or any('CA key' in x for _, x in notes):
+                f('plain_key_reports_ca_details', {'type': t, 'shown': shown, 'record': rec[2:], 'json': {k: je_.get(k) for k in ('ca_algorithm', 'casize')},
+                                                    'ca_notes': [x for _, x in notes if 'CA key' in x]}, 'no CA type / size / CA notes on a host key that is not a certificate')
             shown_fp = not t.startswith('ecdsa-')
             if (text_fp.get(t) != [fp_sha256(blob)]) if shown_fp else (t in text_fp):
                 f('fingerprint_wrong', {'label': t, 'text': text_fp.get(t)}, [fp_sha256(blob)] if shown_fp else 'not shown without -v')
